@@ -1,7 +1,7 @@
 SPECIFICATION Spec
 CONSTANTS
   Ks = {0, 1, 2}
-  ScriptIds = {1, 2, 3, 4, 5, 7}
+  ScriptIds = {1, 2, 3, 4, 5, 7, 8, 9, 10}
   Want = 2
   Cancels = {TRUE}
   Lates = {FALSE}
